@@ -435,6 +435,13 @@ fn server_hostile() {
         ("lower-case command".into(), req(&[b"set", b"evil", b"1"])),
         ("wrong arity SET".into(), req(&[b"SET", b"evil"])),
         ("wrong arity GET".into(), req(&[b"GET", b"a", b"b"])),
+        ("SET with one surplus argument".into(), req(&[b"SET", b"evil", b"1", b"NX"])),
+        ("SET with two surplus arguments".into(), req(&[b"SET", b"evil", b"1", b"EX", b"10"])),
+        ("GET with a surplus non-bulk argument".into(), b"*3\r\n$3\r\nGET\r\n$4\r\nevil\r\n:1\r\n".to_vec()),
+        ("SET whose value is an integer frame".into(), b"*3\r\n$3\r\nSET\r\n$4\r\nevil\r\n:1\r\n".to_vec()),
+        ("DEL with a non-bulk key".into(), b"*3\r\n$3\r\nDEL\r\n$4\r\nevil\r\n+x\r\n".to_vec()),
+        ("empty command name".into(), req(&[b"", b"evil", b"1"])),
+        ("empty array".into(), b"*0\r\n".to_vec()),
         ("DEL without keys".into(), req(&[b"DEL"])),
         ("non-UTF-8 key".into(), req(&[b"SET", b"\xff\xfe", b"1"])),
         ("truncated frame".into(), b"*3\r\n$3\r\nSET\r\n$4\r\nevil\r\n$100\r\nabc".to_vec()),
@@ -456,7 +463,12 @@ fn server_hostile() {
             // the hostile connection
             if let Ok(mut h) = tokio::net::TcpStream::connect(("127.0.0.1", port)).await {
                 let _ = h.write_all(payload).await; let _ = h.flush().await;
-                let _ = tokio::time::timeout(std::time::Duration::from_millis(150), h.read(&mut buf)).await;
+                // none of these streams begins with a well-formed SET / GET / DEL: whatever comes back must not be a success reply
+                if let Ok(Ok(n)) = tokio::time::timeout(std::time::Duration::from_millis(150), h.read(&mut buf)).await {
+                    if n > 0 && (buf[0] == b'+' || buf[0] == b'$' || buf[0] == b':') {
+                        return Err((name.clone(), format!("the server answered {:?}", String::from_utf8_lossy(&buf[..n.min(40)])), "an error reply or a closed connection: the request is not a well-formed SET / GET / DEL".into()));
+                    }
+                }
                 drop(h);
             } else { return Err((name.clone(), "the server no longer accepts connections".into(), "connections are accepted".into())); }
             // the good client: one SET and one GET, checked
@@ -961,13 +973,17 @@ mod store {
     /// generic history runner: ops are strings "set k v" / "del k" / "get k" / "merge" / "reopen" / "precreate-data N" / "precreate-hint N"
     pub fn run_history(max: u64, mode: &str, ops: &[&str], label: &str) {
         let dir = tempfile::tempdir().unwrap();
+        let (mode, cache0) = match mode.strip_suffix("-cache0") { Some(m) => (m, true), None => (mode, false) };
         let mk = |d: &std::path::Path| {
             let mut c = conf(d, max);
+            if cache0 { c.readers_cache_size(0); }      // a reader cache that keeps nothing
             match mode {
                 // every file is selected / no file is selected / exactly the files holding at least one dead entry
                 "all" => { c.merge_threshold_small_file(u64::MAX).merge_threshold_dead_bytes(0).merge_threshold_fragmentation(0.0); }
                 "frag50" => { c.merge_threshold_small_file(0).merge_threshold_dead_bytes(u64::MAX).merge_threshold_fragmentation(0.5); }
                 "none" => { c.merge_threshold_small_file(0).merge_threshold_dead_bytes(u64::MAX).merge_threshold_fragmentation(1.0); }
+                // fragmented files and files smaller than the maximum (in practice: the active file) -- a selection with gaps
+                "gap" => { c.merge_threshold_small_file(max).merge_threshold_dead_bytes(u64::MAX).merge_threshold_fragmentation(0.4); }
                 _ => { c.merge_threshold_small_file(0).merge_threshold_dead_bytes(u64::MAX).merge_threshold_fragmentation(0.0); }
             }
             c
@@ -1044,6 +1060,21 @@ mod store {
                     } }
                 "reopen" => { had_reopen = true; drop(h); kv = None; std::thread::sleep(std::time::Duration::from_millis(30));
                     match mk(dir.path()).open() { Ok(k) => kv = Some(k), Err(e) => report(label, if had_fault { "C02,C20" } else { "C02" }, &hist, format!("op {} reopen failed: {}; files {:?}", i, e, files(dir.path())), "the directory can be opened") } }
+                // C12: the directory opened with its hint files and a copy of it opened without them must be the same store
+                "ls" => { println!("# op {} files {:?} stats {:?}", i, files(dir.path()), h.verif_dump().1); }
+                "checkhints" if !crate::want("C12") => {}
+                "checkhints" => { had_reopen = true; drop(h); kv = None; std::thread::sleep(std::time::Duration::from_millis(30));
+                    let copy = tempfile::tempdir().unwrap();
+                    for e in std::fs::read_dir(dir.path()).unwrap() { let e = e.unwrap(); let n = e.file_name().to_string_lossy().to_string(); if !n.ends_with(".bitcask.hint") { std::fs::copy(e.path(), copy.path().join(&n)).unwrap(); } }
+                    let had_hints = std::fs::read_dir(dir.path()).unwrap().any(|e| e.unwrap().file_name().to_string_lossy().ends_with(".bitcask.hint"));
+                    let dump = |d: &std::path::Path| -> Result<(Vec<(Vec<u8>, u64, u64, u64)>, Vec<(u64, u64, u64, u64)>, Vec<(String, Option<Vec<u8>>)>), String> {
+                        let k = mk(d).open().map_err(|e| e.to_string())?; let hh = k.get_handle(); let (mut kd, mut st) = hh.verif_dump();
+                        let mut kd: Vec<(Vec<u8>, u64, u64, u64)> = kd.drain(..).map(|(a, b0, c, d0)| (a.to_vec(), b0, c, d0)).collect(); kd.sort(); st.sort();
+                        let gets = model.keys().map(|kk| (kk.clone(), hh.get(b(kk)).ok().flatten().map(|v| v.to_vec()))).collect();
+                        drop(hh); drop(k); std::thread::sleep(std::time::Duration::from_millis(30)); Ok((kd, st, gets)) };
+                    let without = dump(copy.path()); let with = dump(dir.path());
+                    if had_hints && !had_fault && with != without { report(label, "C12", &hist, format!("op {}: opened WITH hint files: {:?}; a copy opened WITHOUT them: {:?}", i, with.as_ref().map(|t| (&t.0, &t.1)), without.as_ref().map(|t| (&t.0, &t.1))), "the same key directory, statistics and answers"); }
+                    match mk(dir.path()).open() { Ok(k) => kv = Some(k), Err(e) => report(label, "C02", &hist, format!("op {} reopen failed: {}", i, e), "the directory can be opened") } }
                 "precreate-data" => { std::fs::File::create(dir.path().join(format!("{}.bitcask.data", p[1]))).unwrap(); }
                 "precreate-hint" => { std::fs::File::create(dir.path().join(format!("{}.bitcask.hint", p[1]))).unwrap(); }
                 "remove-data" => { let _ = std::fs::remove_file(dir.path().join(format!("{}.bitcask.data", p[1]))); }
@@ -1085,12 +1116,16 @@ mod store {
             (0, "all", "set a 1; set b 2; merge; merge; checkall; set c 3; merge; reopen; checkall; checkstats"),
             (1 << 20, "all", "set a 1; set a 22222; set a 333; set b 1; del b; set b 4444; checkstats; reopen; checkstats; checkall"),
             (30, "dead", "set a 1; set b 2; set a 3; merge; checkall; reopen; checkall; checkstats"),
+            // a selection with a gap: file 0 (fragmented) and the small active file are selected, the full file between them is not
+            (100, "gap", "set a 1; set b 1; set c 1; set d 1; set e 1; set f 1; set g 1; set h 1; set a 2; set b 2; set c 2; merge; checkall; get e; reopen; checkall; merge; checkall; checkhints; checkall"),
+            (40, "all-cache0", "set k v; get k; set k w; get k; set j 1; get j; get k; merge; get k; get j; reopen; get k; checkall"),
             (0, "all", "precreate-data 1; set a 1; set b 2; get a; get b; reopen; get a; get b"),
             // a rollover that fails (the next file already exists), the obstacle is removed, the operation is retried (C20)
             (0, "all", "set a 1; precreate-data 2; del a; remove-data 2; !del a; checkstats; get a; !set a 2; checkstats; get a; reopen; checkall; checkstats"),
             (0, "all", "set a 1; set b 1; precreate-data 3; set a 2; remove-data 3; !set a 3; checkstats; !del a; checkstats; !del b; checkstats; get a; get b"),
             // partial merge: an old file keeps a stale record of `a` (1 of 3 dead: not selected) while the file holding its live record is merged
-            (64, "frag50", "set a 1; set b 1; set c 1; set a 2; set x 1; set x 2; set x 3; merge; checkall; reopen; checkall; get a; merge; reopen; checkall"),
+            (64, "frag50", "set a 1; set b 1; set c 1; set a 2; set x 1; set x 2; set x 3; merge; checkall; checkhints; checkall; get a; merge; checkhints; checkall"),
+            (200, "frag50", "set a 1; set b 1; set c 1; set d 1; reopen; set a 22222222222222222222; set x 1; set x 2; set x 3; set x 4; merge; checkall; checkhints; checkall; checkstats"),
             (64, "frag50", "set a 1; set b 1; set c 1; set x 0; set a 2; set x 1; set x 2; set y 1; set y 2; merge; checkall; reopen; checkall; reopen; checkall"),
         ];
         for (max, mode, ops) in curated.iter() {
@@ -1136,17 +1171,17 @@ mod store {
             for _ in 0..n {
                 let k = format!("k{}", next(4));
                 match next(10) {
-                    0..=5 => ops.push(format!("set {} v{}", k, next(7))),
+                    0..=5 => { let d = next(7); ops.push(format!("set {} v{}{}", k, d, "x".repeat((d * 4) as usize))) }
                     6 => ops.push("merge".into()),
                     7 => ops.push("reopen".into()),
                     _ => ops.push(format!("get {}", k)),
                 }
             }
-            ops.push("merge".into()); ops.push("checkall".into()); ops.push("reopen".into()); ops.push("checkall".into()); ops.push("reopen".into()); ops.push("checkall".into());
+            ops.push("merge".into()); ops.push("checkall".into()); ops.push("checkhints".into()); ops.push("checkall".into()); ops.push("reopen".into()); ops.push("checkall".into());
             let v: Vec<&str> = ops.iter().map(|s| s.as_str()).collect();
             run_history(max, mode, &v, "history");
         }
-        println!("{{\"found\": false, \"searched\": \"14 curated (two with a failing rollover, two with values of 1 B / 3 KB / 70 KB alternating), 40 pseudo-random histories with full merges and 24 with partial merges (no deletes), (set/del/get/merge/reopen over 3 keys, max_file_size in 0,40,100,1M) against the map model incl. per-file live-key and dead-byte accounting\"}}");
+        println!("{{\"found\": false, \"searched\": \"17 curated (two with a failing rollover, one merge whose selection has a gap, one with a reader cache of capacity 0, two with values of 1 B / 3 KB / 70 KB alternating), 40 pseudo-random histories with full merges and 24 with partial merges (no deletes), (set/del/get/merge/reopen over 3 keys, max_file_size in 0,40,100,1M) against the map model incl. per-file live-key and dead-byte accounting\"}}");
     }
 
     /// C18 (bounded, real time): the background tasks of the real store with a 25 ms check interval.
